@@ -8,6 +8,11 @@ STATIC_THEOREMS = [
     'SnapraidVerif.Props.C03.rec_unique',
     'SnapraidVerif.Props.C03.min_distance',
     'SnapraidVerif.Props.C03.gen_val',
+    'SnapraidVerif.Raid.power_mds',
+    'SnapraidVerif.Props.C03.power_all_minors',
+    'SnapraidVerif.Props.C03.rec_unique_z',
+    'SnapraidVerif.Props.C03.min_distance_z',
+    'SnapraidVerif.Props.C03.genz_val',
 ]
 
 def main(tier, seed):
